@@ -34,14 +34,14 @@ try:
         os.remove(demo_path)
         checks = {}
         for p in props:
-            c = subprocess.run(["bin/check", p], cwd="/verif", env=dict(env, VERIF_REPO=W), stdout=subprocess.PIPE, stderr=subprocess.PIPE, text=True, timeout=3600)
+            c = subprocess.run(["bin/check", p], cwd=os.environ.get("VERIF_DIR", "/verif"), env=dict(env, VERIF_REPO=W), stdout=subprocess.PIPE, stderr=subprocess.PIPE, text=True, timeout=3600)
             viol = [l for l in c.stdout.splitlines() if l.startswith("VIOLATION")]
             det = [l.strip() for l in c.stdout.splitlines() if "detail:" in l]
             checks[p] = dict(rc=c.returncode, violations=len(viol), formulas=[d.split("formula ")[1].split(" ")[0] for d in det])
         res["checks"] = checks
 finally:
     subprocess.run(["git", "-C", "/repo", "worktree", "remove", "--force", W])
-    subprocess.run(["/verif/bin/genmod.sh"], env=env)
+    subprocess.run([os.environ.get("VERIF_DIR", "/verif") + "/bin/genmod.sh"], env=env)
 dst = os.path.join("/verif/seeded", name)
 os.makedirs(dst, exist_ok=True)
 shutil.copy(os.path.join(src, "patch.diff"), dst)
